@@ -1044,7 +1044,8 @@ class AdbDevice(object):
         self._filesync_send(constants.SEND, adb_info, filesync_info, data=fileinfo)
 
         if progress_callback:
-            total_bytes = os.fstat(stream.fileno()).st_size
+            # An in-memory stream has no file descriptor (``BytesIO.fileno()`` raises ``io.UnsupportedOperation``)
+            total_bytes = len(stream.getbuffer()) if isinstance(stream, BytesIO) else os.fstat(stream.fileno()).st_size
 
         while True:
             data = stream.read(self.max_chunk_size)
